@@ -218,6 +218,17 @@ theorem stepMeta_ok (P : Params) (st st' : St) (kind cand rest : Str) (h : stepM
       | error e => rw [hm] at h; dsimp only at h; cases h
       | ok hd => rw [hm] at h; dsimp only at h; exact ⟨hd, rfl, (Except.ok.inj h).symm⟩
 
+/-- metadata for the current family after one of its samples fails -/
+theorem stepMeta_late (P : Params) (st : St) (kind cand rest : Str) (hn : st.hdr.name = some cand) (hs : st.grp.samples ≠ []) :
+    stepMeta P st kind cand rest = .error .valueError := by
+  unfold stepMeta
+  have : (st.hdr.name == some cand && !st.grp.samples.isEmpty) = true := by
+    rw [hn]
+    cases hl : st.grp.samples with
+    | nil => exact absurd hl hs
+    | cons a b => simp
+  rw [if_pos this]
+
 /-- how `stepSample` decomposes when it succeeds -/
 theorem stepSample_ok (P : Params) (st st' : St) (s : OSample) (isNh : Bool) (h : stepSample P st s isNh = .ok st') :
     ((!st.hdr.allowed.contains s.name && !isNh) = true ∧ ∃ g hd gr, flush P st.glob st.hdr st.grp.samples = .ok g ∧
